@@ -155,3 +155,345 @@ VARIANTS += [
  dict(name='blob-match-variable-tested-the-wrong-way', file=V, expect='flagged(blob/)', find=BM_OLD,
       replace='\tblobMatches := desc.Digest == payload.TargetArtifact.Digest &&\n\t\tdesc.Size == payload.TargetArtifact.Size &&\n\t\t(desc.MediaType == "" || desc.MediaType == payload.TargetArtifact.MediaType)\n\tif blobMatches {\n'),
 ]
+
+# ======================================================================================================================
+# second pass: classes of behaviour-preserving rewrites (each class: the shape(s) as `silent`, the shape with the
+# property broken as `flagged`)
+# ======================================================================================================================
+
+# ---- class A: the validation results are built by a constructor function (verdict forwarder, mObj) -------------------
+VI_OLD = '''func verifyIntegrity(sigBlob []byte, envelopeMediaType string, outcome *notation.VerificationOutcome) (*signature.EnvelopeContent, *notation.ValidationResult) {
+	// parse the signature
+	sigEnv, err := signature.ParseEnvelope(envelopeMediaType, sigBlob)
+	if err != nil {
+		return nil, &notation.ValidationResult{
+			Error:  fmt.Errorf("unable to parse the digital signature, error : %s", err),
+			Type:   trustpolicy.TypeIntegrity,
+			Action: outcome.VerificationLevel.Enforcement[trustpolicy.TypeIntegrity],
+		}
+	}
+
+	// verify integrity
+	envContent, err := sigEnv.Verify()
+	if err != nil {
+		switch err.(type) {
+		case *signature.SignatureEnvelopeNotFoundError, *signature.InvalidSignatureError, *signature.SignatureIntegrityError:
+			return nil, &notation.ValidationResult{
+				Error:  err,
+				Type:   trustpolicy.TypeIntegrity,
+				Action: outcome.VerificationLevel.Enforcement[trustpolicy.TypeIntegrity],
+			}
+		default:
+			// unexpected error
+			return nil, &notation.ValidationResult{
+				Error:  notation.ErrorVerificationInconclusive{Msg: err.Error()},
+				Type:   trustpolicy.TypeIntegrity,
+				Action: outcome.VerificationLevel.Enforcement[trustpolicy.TypeIntegrity],
+			}
+		}
+	}
+
+	if err := envelope.ValidatePayloadContentType(&envContent.Payload); err != nil {
+		return nil, &notation.ValidationResult{
+			Error:  err,
+			Type:   trustpolicy.TypeIntegrity,
+			Action: outcome.VerificationLevel.Enforcement[trustpolicy.TypeIntegrity],
+		}
+	}
+
+	// integrity has been verified successfully
+	return envContent, &notation.ValidationResult{
+		Type:   trustpolicy.TypeIntegrity,
+		Action: outcome.VerificationLevel.Enforcement[trustpolicy.TypeIntegrity],
+	}
+}
+'''
+
+CTOR = '''func newValidationResult(outcome *notation.VerificationOutcome, resultType trustpolicy.ValidationType, err error) *notation.ValidationResult {
+	return &notation.ValidationResult{
+		Error:  err,
+		Type:   resultType,
+		Action: outcome.VerificationLevel.Enforcement[resultType],
+	}
+}
+
+'''
+# other parameter order, object filled in by assignments
+CTOR_ASSIGN = '''func makeResult(failure error, level *trustpolicy.VerificationLevel, kind trustpolicy.ValidationType) *notation.ValidationResult {
+	r := new(notation.ValidationResult)
+	r.Type = kind
+	r.Action = level.Enforcement[kind]
+	r.Error = failure
+	return r
+}
+
+'''
+# two levels: a constructor for the integrity step on top of the general one
+CTOR_TWO = CTOR + '''func integrityOutcome(outcome *notation.VerificationOutcome, err error) *notation.ValidationResult {
+	return newValidationResult(outcome, trustpolicy.TypeIntegrity, err)
+}
+
+'''
+
+def vi(mk, prelude='', default_arm='err = notation.ErrorVerificationInconclusive{Msg: err.Error()}', type_err='err', ok='nil'):
+    """verifyIntegrity with every result built by mk(<error expression>)"""
+    return '''func verifyIntegrity(sigBlob []byte, envelopeMediaType string, outcome *notation.VerificationOutcome) (*signature.EnvelopeContent, *notation.ValidationResult) {
+''' + prelude + '''	sigEnv, err := signature.ParseEnvelope(envelopeMediaType, sigBlob)
+	if err != nil {
+		return nil, ''' + mk('fmt.Errorf("unable to parse the digital signature, error : %s", err)') + '''
+	}
+	envContent, err := sigEnv.Verify()
+	if err != nil {
+		switch err.(type) {
+		case *signature.SignatureEnvelopeNotFoundError, *signature.InvalidSignatureError, *signature.SignatureIntegrityError:
+			// reported as it is
+		default:
+			''' + default_arm + '''
+		}
+		return nil, ''' + mk('err') + '''
+	}
+	if err := envelope.ValidatePayloadContentType(&envContent.Payload); err != nil {
+		return nil, ''' + mk(type_err) + '''
+	}
+	return envContent, ''' + mk(ok) + '''
+}
+'''
+
+mkA = lambda e: 'newValidationResult(outcome, trustpolicy.TypeIntegrity, ' + e + ')'
+mkAssign = lambda e: 'makeResult(' + e + ', outcome.VerificationLevel, trustpolicy.TypeIntegrity)'
+mkTwo = lambda e: 'integrityOutcome(outcome, ' + e + ')'
+mkClosure = lambda e: 'result(' + e + ')'
+CLOSURE = '''	result := func(failure error) *notation.ValidationResult {
+		return &notation.ValidationResult{
+			Type:   trustpolicy.TypeIntegrity,
+			Action: outcome.VerificationLevel.Enforcement[trustpolicy.TypeIntegrity],
+			Error:  failure,
+		}
+	}
+'''
+# the work split from the result building: a worker that returns (content, error), one constructor call on the single exit
+VI_SPLIT = '''func verifyIntegrity(sigBlob []byte, envelopeMediaType string, outcome *notation.VerificationOutcome) (*signature.EnvelopeContent, *notation.ValidationResult) {
+	envContent, err := openEnvelope(envelopeMediaType, sigBlob)
+	return envContent, newValidationResult(outcome, trustpolicy.TypeIntegrity, err)
+}
+
+func openEnvelope(envelopeMediaType string, sigBlob []byte) (*signature.EnvelopeContent, error) {
+	sigEnv, err := signature.ParseEnvelope(envelopeMediaType, sigBlob)
+	if err != nil {
+		return nil, fmt.Errorf("unable to parse the digital signature, error : %s", err)
+	}
+	envContent, err := sigEnv.Verify()
+	switch err.(type) {
+	case nil:
+	case *signature.SignatureEnvelopeNotFoundError, *signature.InvalidSignatureError, *signature.SignatureIntegrityError:
+		return nil, err
+	default:
+		return nil, notation.ErrorVerificationInconclusive{Msg: err.Error()}
+	}
+	if err := envelope.ValidatePayloadContentType(&envContent.Payload); err != nil {
+		return nil, PAYLOADERR
+	}
+	return envContent, nil
+}
+'''
+
+VARIANTS += [
+ dict(name='benign-result-constructor', file=V, expect='silent', find=VI_OLD, replace=CTOR + vi(mkA)),
+ dict(name='benign-result-constructor-assignments-other-order', file=V, expect='silent', find=VI_OLD, replace=CTOR_ASSIGN + vi(mkAssign)),
+ dict(name='benign-result-constructor-two-levels', file=V, expect='silent', find=VI_OLD, replace=CTOR_TWO + vi(mkTwo)),
+ dict(name='benign-result-constructor-closure', file=V, expect='silent', find=VI_OLD, replace=vi(mkClosure, prelude=CLOSURE)),
+ dict(name='benign-result-constructor-worker-split', file=V, expect='silent', find=VI_OLD, replace=CTOR + VI_SPLIT.replace('PAYLOADERR', 'err')),
+ # broken counterparts
+ dict(name='result-constructor-unexpected-verify-error-dropped', file=V, expect='flagged(envelope-verify)', find=VI_OLD,
+      replace=CTOR + vi(mkA, default_arm='err = nil')),
+ dict(name='result-constructor-payload-type-error-dropped', file=V, expect='flagged(payload-type)', find=VI_OLD,
+      replace=CTOR + vi(mkA, type_err='nil')),
+ dict(name='result-constructor-ignores-error', file=V, expect='flagged(parse-envelope)', find=VI_OLD,
+      replace=CTOR.replace('Error:  err,', 'Error:  nil,') + vi(mkA)),
+ dict(name='result-constructor-error-only-for-other-types', file=V, expect='flagged(parse-envelope)', find=VI_OLD,
+      replace='''func newValidationResult(outcome *notation.VerificationOutcome, resultType trustpolicy.ValidationType, err error) *notation.ValidationResult {
+	r := &notation.ValidationResult{Type: resultType, Action: outcome.VerificationLevel.Enforcement[resultType]}
+	if resultType != trustpolicy.TypeIntegrity {
+		r.Error = err
+	}
+	return r
+}
+
+''' + vi(mkA)),
+ dict(name='result-constructor-two-errors-wrong-one-stored', file=V, expect='flagged(parse-envelope)', find=VI_OLD,
+      replace='''func newValidationResult(outcome *notation.VerificationOutcome, resultType trustpolicy.ValidationType, err, cause error) *notation.ValidationResult {
+	_ = err
+	return &notation.ValidationResult{Error: cause, Type: resultType, Action: outcome.VerificationLevel.Enforcement[resultType]}
+}
+
+''' + vi(lambda e: 'newValidationResult(outcome, trustpolicy.TypeIntegrity, ' + e + ', nil)')),
+ dict(name='result-constructor-closure-reset-afterwards', file=V, expect='flagged(parse-envelope)', find=VI_OLD,
+      replace=vi(mkClosure, prelude=CLOSURE.replace('		return &notation.ValidationResult{', '		r := &notation.ValidationResult{').replace('			Error:  failure,\n		}\n', '			Error:  failure,\n		}\n		if outcome.VerificationLevel.Name != "strict" {\n			r.Error = nil\n		}\n		return r\n'))),
+ dict(name='result-constructor-worker-split-payload-type-dropped', file=V, expect='flagged(payload-type)', find=VI_OLD,
+      replace=CTOR + VI_SPLIT.replace('		return nil, PAYLOADERR\n', '		_ = err\n')),
+]
+
+# ---- class B: one failure exit (closure / helper that records the error and hands it back), error local -------------
+OCI_OLD = '''	err = v.processSignature(ctx, signature, envelopeMediaType, trustPolicy.Name, trustPolicy.TrustedIdentities, trustPolicy.TrustStores, trustPolicy.SignatureVerification, pluginConfig, outcome)
+
+	if err != nil {
+		outcome.Error = err
+		return outcome, err
+	}
+
+	payload := &envelope.Payload{}
+	err = json.Unmarshal(outcome.EnvelopeContent.Payload.Content, payload)
+	if err != nil {
+		logger.Error("Failed to unmarshal the payload content in the signature blob to envelope.Payload")
+		outcome.Error = err
+		return outcome, err
+	}
+
+	if !content.Equal(payload.TargetArtifact, desc) {
+		logger.Infof("Target artifact in signature payload: %+v", payload.TargetArtifact)
+		logger.Infof("Target artifact that want to be verified: %+v", desc)
+		outcome.Error = errors.New("content descriptor mismatch")
+	}
+
+	if len(opts.UserMetadata) > 0 {
+		err := verifyUserMetadata(logger, payload, opts.UserMetadata)
+		if err != nil {
+			outcome.Error = err
+		}
+	}
+
+	return outcome, outcome.Error
+}
+'''
+
+def oci(fail, prelude='', mismatch='verificationErr = errors.New("content descriptor mismatch")',
+        meta='''		if err := verifyUserMetadata(logger, payload, opts.UserMetadata); err != nil {
+			verificationErr = err
+		}
+''', tail=None, after=''):
+    if tail is None:
+        tail = '''	if verificationErr != nil {
+		return ''' + fail('verificationErr') + '''
+	}
+	return outcome, nil
+'''
+    return prelude + '''	err = v.processSignature(ctx, signature, envelopeMediaType, trustPolicy.Name, trustPolicy.TrustedIdentities, trustPolicy.TrustStores, trustPolicy.SignatureVerification, pluginConfig, outcome)
+	if err != nil {
+		return ''' + fail('err') + '''
+	}
+
+	payload := &envelope.Payload{}
+	err = json.Unmarshal(outcome.EnvelopeContent.Payload.Content, payload)
+	if err != nil {
+		logger.Error("Failed to unmarshal the payload content in the signature blob to envelope.Payload")
+		return ''' + fail('err') + '''
+	}
+
+	var verificationErr error
+	if !content.Equal(payload.TargetArtifact, desc) {
+		logger.Infof("Target artifact in signature payload: %+v", payload.TargetArtifact)
+		logger.Infof("Target artifact that want to be verified: %+v", desc)
+		''' + mismatch + '''
+	}
+
+	if len(opts.UserMetadata) > 0 {
+''' + meta + '''	}
+
+''' + tail + '''}
+''' + after
+
+FAILED_CLOSURE = '''	failed := func(err error) (*notation.VerificationOutcome, error) {
+		outcome.Error = err
+		return outcome, err
+	}
+'''
+FAIL_FUNC = '''
+func rejected(failure error, outcome *notation.VerificationOutcome) (*notation.VerificationOutcome, error) {
+	outcome.Error = failure
+	return outcome, failure
+}
+'''
+failC = lambda e: 'failed(' + e + ')'
+failF = lambda e: 'rejected(' + e + ', outcome)'
+SINGLE_EXIT = '''	outcome.Error = verificationErr
+	return outcome, verificationErr
+'''
+
+VARIANTS += [
+ dict(name='benign-failure-exit-closure', file=V, expect='silent', find=OCI_OLD, replace=oci(failC, prelude=FAILED_CLOSURE)),
+ dict(name='benign-failure-exit-function', file=V, expect='silent', find=OCI_OLD, replace=oci(failF, after=FAIL_FUNC)),
+ dict(name='benign-error-local-single-exit', file=V, expect='silent', find=OCI_OLD, replace=oci(failC, prelude=FAILED_CLOSURE, tail=SINGLE_EXIT)),
+ # broken counterparts
+ dict(name='failure-exit-closure-metadata-overwrites-mismatch', file=V, expect='flagged(oci/descriptor-equal)', find=OCI_OLD,
+      replace=oci(failC, prelude=FAILED_CLOSURE, meta='		verificationErr = verifyUserMetadata(logger, payload, opts.UserMetadata)\n')),
+ dict(name='failure-exit-closure-mismatch-only-logged', file=V, expect='flagged(oci/descriptor-equal)', find=OCI_OLD,
+      replace=oci(failC, prelude=FAILED_CLOSURE, mismatch='logger.Warn("content descriptor mismatch")')),
+ dict(name='failure-exit-function-swallows-error', file=V, expect='flagged(oci/)', find=OCI_OLD,
+      replace=oci(failF, after=FAIL_FUNC.replace('return outcome, failure', 'return outcome, nil'))),
+ dict(name='failure-exit-closure-guarded-by-metadata', file=V, expect='flagged(oci/descriptor-equal)', find=OCI_OLD,
+      replace=oci(failC, prelude=FAILED_CLOSURE, tail='''	if verificationErr != nil && len(opts.UserMetadata) > 0 {
+		return failed(verificationErr)
+	}
+	return outcome, nil
+''')),
+ dict(name='error-local-single-exit-metadata-overwrites', file=V, expect='flagged(oci/descriptor-equal)', find=OCI_OLD,
+      replace=oci(failC, prelude=FAILED_CLOSURE, tail=SINGLE_EXIT, meta='		verificationErr = verifyUserMetadata(logger, payload, opts.UserMetadata)\n')),
+]
+
+# ---- class C: the blob comparison lives in a predicate / checking helper -----------------------------------------------
+BLOB_IF = BM_OLD
+BLOB_FN_ANCHOR = 'func verifyUserMetadata(logger log.Logger, payload *envelope.Payload, userMetadata map[string]string) error {\n'
+def blob_helper(cond, helper):
+    return dict(edits=[(V, BLOB_IF, cond), (V, BLOB_FN_ANCHOR, helper + '\n' + BLOB_FN_ANCHOR)])
+
+IS_SIGNED = '''func isSignedBlob(blobDesc, signedDesc ocispec.Descriptor) bool {
+	if blobDesc.MediaType != "" && blobDesc.MediaType != signedDesc.MediaType {
+		return false
+	}
+	return blobDesc.Digest == signedDesc.Digest && blobDesc.Size == signedDesc.Size
+}
+'''
+CHECK_ERR = '''func checkBlobDescriptor(derived, signed ocispec.Descriptor) error {
+	if derived.Digest != signed.Digest || derived.Size != signed.Size {
+		return errors.New("digest or size mismatch")
+	}
+	if derived.MediaType == "" {
+		return nil
+	}
+	if derived.MediaType != signed.MediaType {
+		return errors.New("media type mismatch")
+	}
+	return nil
+}
+'''
+TWO_LEVEL = '''func isSignedBlob(blobDesc, signedDesc ocispec.Descriptor) bool {
+	return blobDesc.Digest == signedDesc.Digest && blobDesc.Size == signedDesc.Size && mediaTypeAgrees(blobDesc.MediaType, signedDesc.MediaType)
+}
+
+func mediaTypeAgrees(stated, signed string) bool {
+	return stated == "" || stated == signed
+}
+'''
+IF_PRED = '\tif !isSignedBlob(desc, payload.TargetArtifact) {\n'
+IF_ERR = '\tif err := checkBlobDescriptor(desc, payload.TargetArtifact); err != nil {\n'
+
+VARIANTS += [
+ dict(name='benign-blob-predicate-early-return', expect='silent', **blob_helper(IF_PRED, IS_SIGNED)),
+ dict(name='benign-blob-check-returns-error', expect='silent', **blob_helper(IF_ERR, CHECK_ERR)),
+ dict(name='benign-blob-predicate-two-levels', expect='silent', **blob_helper(IF_PRED, TWO_LEVEL)),
+ # broken counterparts
+ dict(name='blob-predicate-guard-on-signed-side', expect='flagged(blob/mediatype-equal)',
+      **blob_helper(IF_PRED, IS_SIGNED.replace('if blobDesc.MediaType != "" &&', 'if signedDesc.MediaType != "" &&'))),
+ dict(name='blob-predicate-without-mediatype', expect='flagged(blob/mediatype-equal)',
+      **blob_helper(IF_PRED, IS_SIGNED.replace('	if blobDesc.MediaType != "" && blobDesc.MediaType != signedDesc.MediaType {\n		return false\n	}\n', ''))),
+ dict(name='blob-predicate-applied-to-itself', expect='flagged(blob/)',
+      **blob_helper('\tif !isSignedBlob(desc, desc) {\n', IS_SIGNED)),
+ dict(name='blob-check-error-empty-signed-type-accepted', expect='flagged(blob/mediatype-equal)',
+      **blob_helper(IF_ERR, CHECK_ERR.replace('if derived.MediaType == "" {', 'if derived.MediaType == "" || signed.MediaType == "" {'))),
+ dict(name='blob-check-error-without-size', expect='flagged(blob/size-equal)',
+      **blob_helper(IF_ERR, CHECK_ERR.replace(' || derived.Size != signed.Size', ''))),
+ dict(name='blob-predicate-two-levels-inner-compares-itself', expect='flagged(blob/mediatype-equal)',
+      **blob_helper(IF_PRED, TWO_LEVEL.replace('mediaTypeAgrees(blobDesc.MediaType, signedDesc.MediaType)', 'mediaTypeAgrees(blobDesc.MediaType, blobDesc.MediaType)'))),
+ dict(name='blob-predicate-two-levels-inner-accepts-prefix', expect='flagged(blob/mediatype-equal)',
+      **blob_helper(IF_PRED, TWO_LEVEL.replace('stated == "" || stated == signed', 'stated == "" || strings.HasPrefix(signed, stated)'))),
+]
